@@ -78,10 +78,11 @@ Theorem transit_no_app_logic c o c' ev :
   exec c o = Some (c', ev) ->
   (forall p pf h, o = ORecv p pf h -> p_dst p <> c_name A c) ->
   (forall p a pf h, o = OAck p a pf h -> p_src p <> c_name A c) ->
+  (forall a, o <> OSetApp a) ->
   c_app A c' = c_app A c.
 Proof.
-  intros E NR NA.
-  destruct o as [p|p pf h|p a pf h|cp|cp pf h|nm cl|nm h sn t|rs|dt]; cbn [Keeper.exec] in E.
+  intros E NR NA NS.
+  destruct o as [p|p pf h|p a pf h|cp|cp pf h|nm cl|nm h sn t|rs|dt|ap]; cbn [Keeper.exec] in E.
   - apply send_packet_inv in E. destruct E as (_ & _ & _ & _ & ->). reflexivity.
   - specialize (NR p pf h eq_refl). unfold msg_recv in E.
     destruct (N.eqb h 0); [discriminate|].
@@ -105,6 +106,7 @@ Proof.
     destruct (negb _); [discriminate|]. inversion E; subst. reflexivity.
   - destruct (set_rules rs); [|discriminate]. inversion E; subst. reflexivity.
   - inversion E; subst. reflexivity.
+  - exfalso. eapply NS. reflexivity.
 Qed.
 
 (** acknowledgements pass back through the relay unchanged: what the relay
